@@ -64,8 +64,13 @@ def _curve_shapes(tier):
                     out.append(dict(p=p, mult=list(mult), d=2, rational=False))
     out.append(dict(p=2, mult=[1], d=1, rational=True))
     out.append(dict(p=1, mult=[1], d=2, rational=True))
+    # densities 3 and 4: "bisected d times" means 2**d pieces, which differs from 2*d only from d = 3 on
+    out.append(dict(p=1, mult=[], d=3, rational=False))
+    out.append(dict(p=2, mult=[], d=3, rational=False))
+    out.append(dict(p=1, mult=[1], d=3, rational=False))
+    out.append(dict(p=1, mult=[], d=4, rational=False))
     if tier == 'thorough':
-        out.append(dict(p=2, mult=[], d=3, rational=False))
+        out.append(dict(p=2, mult=[1], d=3, rational=False))
         out.append(dict(p=3, mult=[2], d=1, rational=True))
     return out
 
